@@ -19,7 +19,7 @@ def runFw (cases : List CaseBlock) : IO Unit := do
     match parseFwCase c with
     | .error e => IO.println s!"case {c.id} {c.kind} PARSE {e}"
     | .ok p =>
-      let (model, starved) := modelRun p (p.trace.newRes == .ok)
+      let (model, starved) := modelRun p (Validate.frameworkNew p.trace.machines p.trace.fp p.trace.fb)
       let ds := diffTrace p.trace model
       let ds := if starved then ds ++ [(0, ["oracle"])] else ds
       if ds.isEmpty then
